@@ -8,11 +8,12 @@
  *        api    : put | iput | bput | iput_varn | bput_varn | put_varn
  *        layout : c  (contiguous, typed API)  | x (contiguous, flexible API) | v<bl>_<st> (flexible, MPI_Type_vector(n/bl, bl, st))
  *                 k<k> (MPI_Type_contiguous(k, elem), bufcount n/k) | K<k1>_<k2> (nested contiguous) | q<bl> (contiguous of
- *                 vector(2, bl, bl): dense but decoded as non-contiguous)
+ *                 vector(2, bl, bl): dense but decoded as non-contiguous) | R<bl>_<st> (bufcount n/bl instances of
+ *                 resized(contiguous(bl, elem), 0, st*elsize), st > bl: padded records)
  *        hint   : auto | enable | disable          (nc_in_place_swap)
  *        exit   : wait | wait_all | cancel | close  (put / put_varn: `wait` = independent API, anything else = collective)
  *   G <id> <fmt> <xt> <memk> <api> <rows> <cols> <layout>
- *        api    : get | iget            layout : c | x | v<bl>_<st> | m (typed varm, transposed imap) | w<bl>_<st> (flexible vector + transposed imap)
+ *        api    : get | iget            layout : c | x | v<bl>_<st> | R<bl>_<st> | m (typed varm, transposed imap) | w<bl>_<st> (flexible vector + transposed imap)
  * The variable is 1-D [n] (P) or 2-D [rows][cols] (G) of external type xt; element k holds 1 + ((id*7919 + k*104729) % LIM).
  * output, one line per case:
  *   P <id> <rc_post> <reqid> <rc_exit> <post: same|hex of the body after the post> <exit: same|scribble|hex of the body after the exit> <guards 1|0> <file 1|0|-1>
@@ -91,12 +92,17 @@ int main(int argc, char **argv)
             MPI_Offset bufcount;
             unsigned char *raw, *body, *orig, *scrib;
             int transposed = (layout[0] == 'm' || layout[0] == 'w');
-            if (layout[0] == 'v' || layout[0] == 'w') { parse_vec(layout, &bl, &st); cnt = n / bl; }
-            extent = (layout[0] == 'v' || layout[0] == 'w') ? (cnt - 1) * st + bl : n;
+            if (layout[0] == 'v' || layout[0] == 'w' || layout[0] == 'R') { parse_vec(layout, &bl, &st); cnt = n / bl; }
+            extent = (layout[0] == 'v' || layout[0] == 'w' || layout[0] == 'R') ? (cnt - 1) * st + bl : n;
             raw = malloc(2 * GUARD + extent * es + 64); body = raw + GUARD;
             orig = malloc(extent * es + 1); scrib = malloc(extent * es + 1);
             memset(raw, 0xA5, 2 * GUARD + extent * es);
             if (layout[0] == 'v' || layout[0] == 'w') { MPI_Type_vector((int)cnt, (int)bl, (int)st, el, &vt); MPI_Type_commit(&vt); buftype = vt; bufcount = 1; }
+            else if (layout[0] == 'R') {           /* R<bl>_<st>: bufcount = n/bl instances of resized(contiguous(bl, elem), 0, st*elsize):
+                                                      an array of padded records; the padding keeps the 0xA5 guard pattern */
+                MPI_Type_contiguous((int)bl, el, &vt2);
+                MPI_Type_create_resized(vt2, 0, (MPI_Aint)(st * es), &vt); MPI_Type_commit(&vt); buftype = vt; bufcount = cnt;
+            }
             else if (layout[0] == 'k') {           /* k<k>: MPI_Type_contiguous(k, elem), bufcount = n/k */
                 long long k1 = 1; sscanf(layout + 1, "%lld", &k1);
                 MPI_Type_contiguous((int)k1, el, &vt); MPI_Type_commit(&vt); buftype = vt; bufcount = n / k1;
@@ -118,7 +124,7 @@ int main(int argc, char **argv)
                 unsigned char *postimg = malloc(extent * es + 1);
                 s2[0][0] = 0; c2[0][0] = n / 2; s2[1][0] = n / 2; c2[1][0] = n - n / 2; sp[0] = s2[0]; sp[1] = s2[1]; cp[0] = c2[0]; cp[1] = c2[1];
                 for (i = 0; i < n; i++) {           /* k-th selected element */
-                    long long pos = (layout[0] == 'v') ? (i / bl) * st + i % bl : i;
+                    long long pos = (layout[0] == 'v' || layout[0] == 'R') ? (i / bl) * st + i % bl : i;
                     store(memk, body + pos * es, 1 + ((id * 7919 + i * 104729) % L));
                 }
                 memcpy(orig, body, extent * es);
